@@ -2852,6 +2852,9 @@ class Interp:
         if len(parts) >= 2 and parts[-1][0] == 'val' and all(a == ('int', 'fsize') for a in parts[-1][1]) \
                 and parts[-2][0] == 'const' and parts[-2][1][-1:].isspace():
             extra = ('sizeint', self.guard_keywords(fr) or frozenset({'?'}))
+        elif any(p_[0] == 'val' and (('int', 'fsize') in p_[1] or any(a[0] == 'str' and (a[2] == 'fsize' or (isinstance(a[2], tuple) and a[2][0] == 'sizeint')) for a in p_[1]))
+                 for p_ in parts):
+            extra = ('sizeint', frozenset({'?'}))       # the reader's size is in this text, where is not followed
         return av(('str', taint, extra))
 
     def ex_FormattedValue(self, fr, node):
@@ -2938,12 +2941,30 @@ class Interp:
                 extra = 'wsend'
             if kb == 'str' and b[2] == 'fsize' and lws:
                 extra = ('sizeint', self.guard_keywords(fr) or frozenset({'?'}))
+            elif (ka == 'str' and a[2] == 'fsize') or (kb == 'str' and b[2] == 'fsize'):
+                extra = ('sizeint', frozenset({'?'}))       # the reader's size is in this text, where is not followed
+            elif ka == 'str' and isinstance(a[2], tuple) and a[2][0] == 'sizeint':
+                extra = a[2]
+            elif kb == 'str' and isinstance(b[2], tuple) and b[2][0] == 'sizeint':
+                extra = ('sizeint', frozenset({'?'}))
             return {('str', taint, extra)}
         if is_str_atom(a) and isinstance(op, ast.Mod):
             taint = str_taint(a)
             if is_str_atom(b) and str_taint(b) == 'u' or kb in ('seq', 'list', 'obj', 'kdict', 'dict'):
                 taint = 'u'
-            return {('str', taint, None)}
+            extra = None
+            last = b
+            has_size = b == ('int', 'fsize')
+            if kb == 'seq' and b[2]:
+                has_size = any(('int', 'fsize') in e for e in b[2])
+                last = b[2][-1]
+            if has_size:
+                # the reader's file size is formatted into this text: at the end after whitespace it is the size token,
+                # anywhere else where it ends up is not followed
+                at_end = ka == 'c' and a[2][-2:] in ('%d', '%s', '%i') and a[2][-3:-2].isspace() and \
+                    (last == ('int', 'fsize') or (isinstance(last, frozenset) and all(x == ('int', 'fsize') for x in last)))
+                extra = ('sizeint', (self.guard_keywords(fr) or frozenset({'?'})) if at_end else frozenset({'?'}))
+            return {('str', taint, extra)}
         if is_str_atom(a) and is_int_atom(b) and isinstance(op, ast.Mult) or is_int_atom(a) and is_str_atom(b) and isinstance(op, ast.Mult):
             s = a if is_str_atom(a) else b
             return {('str', str_taint(s), None)}
@@ -5168,6 +5189,9 @@ class Interp:
             if text.endswith('{}') and text[-3:-2].isspace() and text.count('{') == len(args.pos) \
                     and all(a == ('int', 'fsize') for a in args.pos[-1]):
                 extra = ('sizeint', self.guard_keywords(fr) or frozenset({'?'}))
+        if extra is None and any(('int', 'fsize') in v or any(a[0] == 'str' and a[2] == 'fsize' for a in v)
+                                 for v in list(args.pos) + list(args.kw.values()) + ([args.star] if args.star else [])):
+            extra = ('sizeint', frozenset({'?'}))       # the size is in there, where is not followed
         return av(('str', taint, extra))
 
     def apply_method(self, fr, a, attr, args, node):
